@@ -156,7 +156,7 @@ def tlc(module, cfgtext, run, workers=8, timeout=1800, env_extra=None, xss="1g",
 
 
 def scenario_cfg(cfg, cases, invariants, max_exchanges=1, extra_constants="", spec="Spec"):
-    return ("SPECIFICATION %s\nCONSTANTS\n    F = %s\n    Cases <- %s\n    MaxExchanges = %d\n%s"
+    return ("SPECIFICATION %s\nCONSTANTS\n    F = %s\n    Cases <- %s\n    MaxExchanges = %d\n    GenOutcomes = {}\n%s"
             "INVARIANTS %s\nCHECK_DEADLOCK FALSE\n") % (
         spec, fset(cfg), cases, max_exchanges, extra_constants, " ".join(invariants))
 
@@ -236,7 +236,7 @@ def validate(cfg, events, run, timeout=1800, shards=1):
         with open(tpath, "w") as f:
             for e in chunk:
                 f.write(json.dumps(_trace_event(e), separators=(",", ":")) + "\n")
-        cfgtext = ("SPECIFICATION TraceSpec\nCONSTANTS\n    F = %s\n    Cases = {}\n    MaxExchanges = 100000000\n"
+        cfgtext = ("SPECIFICATION TraceSpec\nCONSTANTS\n    F = %s\n    Cases = {}\n    MaxExchanges = 100000000\n    GenOutcomes = {}\n"
                    "INVARIANTS Verdict\nCHECK_DEADLOCK FALSE\n") % fset(cfg)
         procs.append((chunk, tpath, "%s.%d" % (run, s), cfgtext))
     # shards run sequentially here; callers wanting parallelism use several validate() calls
